@@ -322,21 +322,28 @@ func runKmuxfid(r *rng, n int) {
 				}
 			}
 		}()
+		var files []p9.File
+		var root p9.File
+		prepOK := true
 		c, err := p9.NewClient(a)
 		if err != nil {
-			panic(err)
-		}
-		root, err := c.Attach("")
-		if err != nil {
-			panic(err)
-		}
-		var files []p9.File
-		for k := 0; k < clones; k++ {
-			_, f, err := root.Walk(nil)
-			if err != nil {
-				panic(err)
+			prepOK = false
+		} else if root, err = c.Attach(""); err != nil {
+			prepOK = false
+		} else {
+			for k := 0; k < clones; k++ {
+				_, f, err := root.Walk(nil)
+				if err != nil {
+					prepOK = false
+					break
+				}
+				files = append(files, f)
 			}
-			files = append(files, f)
+		}
+		if !prepOK { // the lock-step preparation did not form: not judged
+			a.Close()
+			b.Close()
+			continue
 		}
 		<-done
 		victim := files[r.intn(len(files))]
